@@ -30,10 +30,31 @@ fn c15(rng: &mut Rng, ops: u64) -> (u64, u64) {
             let d = *rng.pick(&[0u8, 1, 2, 3, 7, 8, 254, 255]);
             let e = rng.range(-40000, 40000) as i32;
             let b = *rng.pick(&[Bounds::Exact, Bounds::Lower, Bounds::Upper]);
+            // what the table holds for this key NOW decides (a bounded table may have dropped the entry:
+            // "either nothing or the data most recently accepted" — re-observed before every store, exactly
+            // as the full monitor does, so that a legitimately lossy table is not accused)
+            match tt.retrieve(k) {
+                None => {
+                    model.remove(&k);
+                }
+                Some(h) => match model.get(&k) {
+                    Some(m) if m.0 == h.eval && m.1 == h.depth && m.2 == h.bounds => {}
+                    _ => bad += 1,
+                },
+            }
             tt.store(k, e, None, d, b);
             let accept = model.get(&k).map(|m| d >= m.1).unwrap_or(true);
             if accept {
                 model.insert(k, (e, d, b));
+            }
+            // after the store the key holds either the accepted data or nothing
+            if let Some(h) = tt.retrieve(k) {
+                match model.get(&k) {
+                    Some(m) if m.0 == h.eval && m.1 == h.depth && m.2 == h.bounds && h.hash_key == k => {}
+                    _ => bad += 1,
+                }
+            } else {
+                model.remove(&k);
             }
         } else if let Some(e) = tt.retrieve(k) {
             match model.get(&k) {
@@ -61,7 +82,7 @@ fn c11(rng: &mut Rng, n: usize) -> (u64, u64) {
     let mut ops = 0;
     for _ in 0..2 {
         let z = ZobristTable::new();
-        let mut seen: std::collections::HashMap<u64, String> = std::collections::HashMap::new();
+        let mut seen: std::collections::HashMap<u64, crate::oracle::PosKey> = std::collections::HashMap::new();
         for p in positions(rng, n) {
             let a = z.hash(&Board::new(&p.to_fen()));
             let mut q = p.clone();
@@ -76,9 +97,11 @@ fn c11(rng: &mut Rng, n: usize) -> (u64, u64) {
             if a != b || a == c {
                 bad += 1;
             }
-            let fen4: String = p.to_fen().split(' ').take(4).collect::<Vec<_>>().join(" ");
-            if let Some(prev) = seen.insert(a, fen4.clone()) {
-                if prev != fen4 {
+            // two DIFFERENT positions under one key set must not collide; "different" in the reading that
+            // ignores an en-passant square nobody can capture on, so that either convention passes
+            let id = p.key_fide();
+            if let Some(prev) = seen.insert(a, id) {
+                if prev != id {
                     bad += 1;
                 }
             }
